@@ -166,6 +166,22 @@ theorem inplace_decoding_of_all_literals (lossy : Bool) (t : Buf) (is : List Nat
   obtain ⟨memF, h1, h2, _, h4⟩ := StrIn.runMany_spec lossy t is ds 0 (StrIn.pad t) h rfl (fun _ _ => rfl)
   exact ⟨memF, h1, h2, h4⟩
 
+/-- **… which is what happens to every document** (`Lemmas/ChainDoc.lean`): whenever the specification reads a tree `j` at `w` in
+    a text `t`, the string literals of that value — member names and string values, in document order — form such a chain, and
+    their decodings are exactly the strings of `j` (`ChainDoc.strsOf`).  So decoding them all in place, one after the other in
+    the padded buffer, succeeds without a fault and leaves in the final buffer, at the literals' places, exactly the strings
+    of the tree the text denotes -/
+theorem inplace_decoding_of_a_document (lossy : Bool) (t : Buf) (f w : Nat) (j : Spec.Json) (e : Nat)
+    (h : Spec.tree lossy f t w = some (j, e)) :
+    ∃ (is : List Nat) (ds : List (List UInt8 × Nat)) (memF : Buf),
+      StrIn.runMany lossy (StrIn.pad t) is = some (memF, ds.map (fun d => (d.1.length, d.2))) ∧
+      ds.map (·.1) = ChainDoc.strsOf j ∧ is.length = ds.length ∧
+      ∀ n (hn : n < is.length) (hd : n < ds.length), StrBlock.bytes memF is[n] (is[n] + ds[n].1.length) = ds[n].1 := by
+  obtain ⟨is, ds, hc, hs, _⟩ := (ChainDoc.tree_chain lossy t f).1 w j e h
+  have hc0 := ChainDoc.chain_weaken lossy t w 0 is ds hc (Nat.zero_le _)
+  obtain ⟨memF, h1, _, h3⟩ := inplace_decoding_of_all_literals lossy t is ds hc0
+  exact ⟨is, ds, memF, h1, hs, ChainDoc.chain_length lossy t is ds 0 hc0, h3⟩
+
 /-- non-vacuity: `["a\nb","\u00e9","x"]`: three literals, the first two with escapes -/
 def ex3 : Buf := #[91, 34, 97, 92, 110, 98, 34, 44, 34, 92, 117, 48, 48, 101, 57, 34, 44, 34, 120, 34, 93]
 example : (StrIn.runMany false (StrIn.pad ex3) [2, 9, 18]).map (fun r => (r.2, StrBlock.bytes r.1 2 5, StrBlock.bytes r.1 9 11, StrBlock.bytes r.1 18 19)) =
